@@ -38,6 +38,10 @@ SameSkeleton(A, B) ==
 
 Verdict(t) ==
     IF t.ea # "" THEN "skip:transpile-raised"
+    ELSE IF ~t.ca /\ ~t.raw /\ t.eb = "" /\ t.cb /\ SameSkeleton(Lex(t.a), Lex(t.b)) /\ t.ta # t.tb
+         \* the benign payload compiles, this one (same Vyxal skeleton) changes Python's TOKEN structure:
+         \* program text has left its literal (whether or not the result happens to compile)
+         THEN "violation:payload-changes-python-tokens"
     ELSE IF ~t.ca THEN "skip:does-not-compile"
     ELSE IF \E i \in 1..Len(t.idents) : ~IdentOK(t.idents[i]) THEN "violation:program-text-in-identifier"
     ELSE IF t.raw THEN "ok"
